@@ -1296,7 +1296,7 @@ pub fn make_response_for_prev(prev: &[u8], ext: &Kp, salt: u64) -> Option<(schem
 }
 
 /// mutations of a response message: payload, signature, public key, algorithm, framing
-pub fn response_mutations(r: &Response, rng: &mut Rng, adv: &Kp, prev: &[u8]) -> Vec<(String, Vec<u8>)> {
+pub fn response_mutations(r: &Response, rng: &mut Rng, adv: &Kp, prev: &[u8], prev_key: &schema::PublicKey) -> Vec<(String, Vec<u8>)> {
     let mut out: Vec<(String, Vec<u8>)> = vec![];
     let base = &r.contents;
     let enc = |c: &schema::ThirdPartyBlockContents| c.encode_to_vec();
@@ -1332,6 +1332,21 @@ pub fn response_mutations(r: &Response, rng: &mut Rng, adv: &Kp, prev: &[u8]) ->
     m("key and signature by the adversary", &|c| {
         c.external_signature.public_key = schema::PublicKey { algorithm: adv.alg, key: adv.pk.bytes.clone() };
         c.external_signature.signature = adv.sign(&payload_external_v1(&c.payload, prev, 1));
+    });
+    // what a third-party service of the pre-3.3 protocol answers: the signer's own signature over the *legacy*
+    // external payload (block payload, algorithm and bytes of the previous block's next key) -- bound to a key the
+    // holder chooses, not to the previous signature
+    m("signature by the signer over the legacy external payload (previous key)", &|c| {
+        let mut msg = c.payload.clone();
+        msg.extend(&(prev_key.algorithm as i32).to_le_bytes());
+        msg.extend(&prev_key.key);
+        c.external_signature.signature = r.ext.sign(&msg);
+    });
+    m("signature by the signer over the payload alone", &|c| {
+        c.external_signature.signature = r.ext.sign(&c.payload.clone());
+    });
+    m("signature by the signer over the v1 external payload without the previous signature", &|c| {
+        c.external_signature.signature = r.ext.sign(&payload_external_v1(&c.payload, &[], 1));
     });
     m("key bit flip", &|c| {
         let l = c.external_signature.public_key.key.len();
